@@ -204,6 +204,25 @@ def generate(tier, seed, ctx):
                 add("c10.interp.integ %s %s %s" % (lst(xs), hx(x1), hx(x2)))
                 add("c10.interp.lmin %s %s %s" % (lst(xs), hx(x1), hx(x2)))
                 add("c10.interp.lmax %s %s %s" % (lst(xs), hx(x1), hx(x2)))
+        # histories on one object: calls in the first / last interval (search state correlated) followed by
+        # abscissae on both sides of the tolerance at either end
+        d0, d1 = xs[0], xs[-1]
+        tl, tr = 1e-2 * (xs[1] - xs[0]), 1e-2 * (xs[-1] - xs[-2])
+        mid_first, mid_last = (xs[0] + xs[1]) / 2, (xs[-1] + xs[-2]) / 2
+        outs = [d1 + tr * (1 + P30), d1 + tr * 2, d1 + (d1 - d0), d0 - tl * (1 + P30), d0 - tl * 2, d0 - (d1 - d0)]
+        ins = [d1 + tr * (1 - P30), d1, d0 - tl * (1 - P30), d0, mid_first, mid_last]
+        for pre in ([mid_last], [mid_first], [d1], [d0], [mid_last, mid_last], [mid_first, mid_last], [mid_last, d1 + tr * 0.5], [mid_first, d0 - tl * 0.5], [xs[1], xs[-2], mid_last]):
+            for v in outs + ins:
+                add("c10.interp.hist %s %s" % (lst(xs), lst(pre + [v])))
+        for v in outs[:3] + ins[:2]:
+            add("c10.interp.integ %s %s %s" % (lst(xs), hx(mid_last), hx(v)))
+            add("c10.interp.integ %s %s %s" % (lst(xs), hx(v), hx(mid_last)))
+            add("c10.interp.lmin %s %s %s" % (lst(xs), hx(mid_last), hx(v)))
+            add("c10.interp.lmax %s %s %s" % (lst(xs), hx(mid_last), hx(v)))
+        for v in outs[3:] + ins[2:4]:
+            add("c10.interp.integ %s %s %s" % (lst(xs), hx(v), hx(mid_first)))
+            add("c10.interp.lmin %s %s %s" % (lst(xs), hx(v), hx(mid_first)))
+            add("c10.interp.lmax %s %s %s" % (lst(xs), hx(v), hx(mid_first)))
         add("c10.interp.lmin %s %s %s" % (lst(xs), hx(pr[4]), hx(pr[4])))
         add("c10.interp.lmax %s %s %s" % (lst(xs), hx(pr[5]), hx(pr[4])))
     # 2-D
